@@ -905,3 +905,112 @@ def gen_resolve(rng, n):
             vfs.append([B(p), content])
         rng.shuffle(vfs)
         yield {"op": "resolve", "a": {"s": B(s), "dirs": [B(d) for d in dirs], "vfs": vfs, "via": "posix"}, "g": 1}
+
+
+# ---- C07: hostile inputs ----
+def hostile_bytes(rng, data):
+    b = bytearray(data)
+    k = rng.randrange(8)
+    if k == 0:
+        for _ in range(rng.randint(1, 8)):
+            b[rng.randrange(len(b))] ^= 1 << rng.randrange(8)
+    elif k == 1:
+        i = rng.randrange(len(b)); j = rng.randrange(len(b))
+        b[i:i] = b[j:j + rng.randint(1, 64)]
+    elif k == 2:
+        i = rng.randrange(len(b)); del b[i:i + rng.randint(1, 64)]
+    elif k == 3:
+        for base in (0,):
+            i = rng.randrange(6)
+            b[20 + 4 * i:24 + 4 * i] = struct.pack(">I", rng.choice([0, 1, 2**31 - 1, 2**31, 2**32 - 1, 0x01000000, 65536]))
+    elif k == 4:
+        # extreme 64-bit values sprinkled in
+        for _ in range(rng.randint(1, 4)):
+            i = rng.randrange(max(1, len(b) - 8))
+            b[i:i + 8] = struct.pack(">q", rng.choice([I64MIN, I64MAX, -1, 0, I64MIN + 1, MINT, MAXT]))
+    elif k == 5:
+        del b[rng.randrange(len(b)):]
+    elif k == 6:
+        i = rng.randrange(len(b))
+        b[i:i + 4] = struct.pack(">i", rng.choice([I32MIN, I32MAX, -1, 0]))
+    else:
+        return mutate_file(rng, data)
+    return bytes(b)
+
+
+def gen_hostile_files(rng, files, per_file):
+    for rel in files:
+        data = open(os.path.join(CORPUS, rel), "rb").read()
+        if len(data) > 4000:
+            continue
+        for _ in range(per_file):
+            yield {"op": "tzif", "a": {"bytes": list(hostile_bytes(rng, data))}, "g": 1}
+            if rng.random() < 0.3:
+                yield {"op": "lookup", "a": {"u": W(rng.choice([I64MIN, I64MAX, 0, MINT, MAXT, rng.randint(I64MIN, I64MAX)])), "via": "owned"}}
+                yield {"op": "find", "a": rand_fields(rng, 0.9)}
+
+
+def gen_hostile_strings(rng, n):
+    alphabet = list(range(256))
+    pieces = [b"<", b">", b",", b"/", b":", b"-", b"+", b".", b"M", b"J", b"0", b"9", b"99999999999999999999", b"\x00", b"\xff\xfe", b"\xc3\xa9", b" ", b"\n", b"EST", b"<" * 20, b"1" * 300]
+    for _ in range(n):
+        k = rng.random()
+        if k < 0.4:
+            s = b"".join(rng.choice(pieces) for _ in range(rng.randint(0, 12)))
+        elif k < 0.7:
+            s = bytes(rng.choice(alphabet) for _ in range(rng.randint(0, 40)))
+        else:
+            s = bytearray(rand_tz_sentence(rng).encode())
+            for _ in range(rng.randint(1, 4)):
+                s[rng.randrange(len(s)):rng.randrange(len(s))] = rng.choice(pieces)
+            s = bytes(s)
+        for via in ("v2", "v3"):
+            yield {"op": "tzstring", "a": {"s": list(s), "via": via}}
+
+
+def gen_hostile_numbers(rng, n):
+    ext64 = [I64MIN, I64MIN + 1, I64MAX, I64MAX - 1, MINT, MAXT, MINT - 1, MAXT + 1, 0, -1]
+    ext32 = [I32MIN + 1, I32MAX, 0, -1, 1, I32MIN + 2, I32MAX - 1]
+    for _ in range(n):
+        ntypes = rng.randint(1, 3)
+        ty = [{"off": rng.choice(ext32 + [rng.randint(I32MIN + 1, I32MAX)]), "dst": rng.randint(0, 1), "des": B(rng.choice(DESIGS))} for _ in range(ntypes)]
+        times = sorted(set(rng.sample(ext64 + [rng.randint(I64MIN, I64MAX) for _ in range(4)], rng.randint(0, 6))))
+        tr = [[t, rng.randrange(ntypes)] for t in times]
+        lp = []
+        if rng.random() < 0.4:
+            r0 = rng.choice([0, I64MAX - 5 * 10**6, rng.randint(0, I64MAX - 10**8)])
+            c0 = rng.choice([1, -1, I32MAX, I32MIN, 0])
+            lp = [[r0, c0]]
+            if rng.random() < 0.6:
+                lp.append([min(I64MAX, r0 + rng.choice([2419199, 2419200, 10**7])), c0 + rng.choice([1, -1]) if abs(c0) < 2**31 - 2 else c0])
+            if rng.random() < 0.5:
+                # leap records anywhere in i64, in any order, with any corrections (must be refused, never overflow)
+                lp = [[rng.choice(ext64 + [1, 2, rng.randint(I64MIN, I64MAX)]), rng.choice([1, -1, 2, 0, I32MIN, I32MAX])] for _ in range(rng.randint(1, 3))]
+        k = rng.random()
+        if k < 0.4 or not tr:
+            rule = {"k": "none"}
+        elif k < 0.7:
+            rule = {"k": "fixed", "t": dict(ty[tr[-1][1]])}
+        else:
+            rule = rand_rule(rng)
+        z = {"tr": tr, "ty": ty, "lp": lp, "rule": rule}
+        yield zone_event(z)
+        for _ in range(6):
+            u = rng.choice(ext64 + [t + d for t in times for d in (-1, 0, 1) if I64MIN <= t + d <= I64MAX] + [rng.randint(I64MIN, I64MAX)])
+            yield {"op": "lookup", "a": {"u": W(u), "via": rng.choice(["ref", "owned"])}}
+            yield {"op": "localtime", "a": {"u": W(u), "ns": rng.choice([0, 2147483647])}}
+            f = rand_fields(rng, 0.9)
+            f["y"] = rng.choice([I32MIN, I32MIN + 1, I32MIN + 2, I32MAX - 2, I32MAX - 1, I32MAX, f["y"]])
+            if rng.random() < 0.5:
+                f["n"] = rng.randint(0, 8)
+                yield {"op": "findn", "a": f}
+            else:
+                yield {"op": "find", "a": f}
+            yield {"op": "fromnanos", "a": {"N": W(rng.choice([-2**127, 2**127 - 1, u * 10**9, rng.randint(-2**127, 2**127 - 1)])), "via": "zone", "type": ty[0]}}
+            yield {"op": "project", "a": {"t": W(u), "ns": 0, "type": ty[0], "via": rng.choice(["dt", "utc"])}}
+            yield {"op": "rendert", "a": {"t": W(u), "ns": 0, "off": rng.choice(ext32 + [I32MIN])}}
+    for _ in range(n):
+        r = rand_rule(rng)
+        r["st"] = rng.choice([I32MIN, I32MAX, 604799, -604799, r["st"]])
+        r["std"]["off"] = rng.choice(ext32 + [r["std"]["off"]])
+        yield {"op": "rule", "a": {kk: r[kk] for kk in ("std", "dst", "sd", "st", "ed", "et")}}
